@@ -1,3 +1,4 @@
 // TRUSTED PRELUDE: error type stand-in (R3) -- error *messages* are dropped, the Ok/Err shape is kept.
+#[derive(Debug)]
 pub struct VErr;
 pub type Result<T> = core::result::Result<T, VErr>;
